@@ -316,6 +316,7 @@ type c24Case struct {
 	Kind    string `json:"mutation"`
 	Detail  string `json:"detail"`
 	Config  string `json:"verifier"`
+	Zone    string `json:"local_time_zone"`
 	Path    string `json:"path"`
 	Expect  string `json:"expect"`
 	Outcome string `json:"outcome"`
@@ -328,6 +329,10 @@ type c24Ctx struct {
 	// items collects, per family, every generated segment once (with the
 	// generator's verdict) for the schedule phase in c24sched.go.
 	items *[]c24Item
+	// zone is the local time zone (time.Local) the process runs under while
+	// this part of the workload executes (c24local.go).
+	zone     string
+	lsamples *atomic.Int64
 }
 
 // check runs one (possibly mutated) wire segment through parse + VerifySegment
@@ -459,7 +464,7 @@ func c24Positions(rng *rand.Rand, l, sample int) []int {
 
 func (c *c24Ctx) family(rng *rand.Rand, base int) {
 	var items []c24Item
-	c = &c24Ctx{r: c.r, w: c.w, items: &items}
+	c = &c24Ctx{r: c.r, w: c.w, items: &items, zone: c.zone, lsamples: c.lsamples}
 	r, w := c.r, c.w
 	thorough := r.Thorough()
 	n := 1 + base%10 // every length 1..10 is visited
@@ -489,7 +494,7 @@ func (c *c24Ctx) family(rng *rand.Rand, base int) {
 	mk := func(kind, detail, cfg string) c24Case {
 		return c24Case{
 			Replay: fmt.Sprintf("deterministic per seed (keys and signatures are fresh): re-run C24 with --seed %d --tier %s, base %d", r.Seed, r.Tier, base),
-			Base:   base, Entries: n, Kind: kind, Detail: detail, Config: cfg,
+			Base:   base, Entries: n, Kind: kind, Detail: detail, Config: cfg, Zone: c.zone,
 		}
 	}
 	all := func(kind, detail string, m *cppb.PathSegment, asBeacon, wantOK bool, key string) {
@@ -846,7 +851,14 @@ func checkC24(r *mon.Run) {
 		"unit and entry passes, yields, sleeps, returns ctx.Err(), ignores the context, blocks until the context is done, or cancels " +
 		"the context from inside the call, under 8 schedules: no-fault, delay, cancel-before, expired-before, cancel-mid, " +
 		"block-cancel (cancelled once every unit is blocked or finished), deadline-block and deadline-late (real 1-4 ms deadlines); " +
-		"class = entry point / altered|genuine / schedule [/in-flight: that unit's worker was busy when the context became done]"
+		"class = entry point / altered|genuine / schedule [/in-flight: that unit's worker was busy when the context became done]. " +
+		"Local time zone of the verifying process (time.Local: UTC, +02:00, +05:45, +14:00, -08:00, -12:00; set between phases while no " +
+		"worker runs) is a configuration dimension: the bases are split over UTC, an east and a west zone (all six in thorough), and a " +
+		"local-trust-DB phase runs once per zone on a fresh in-memory sqlite trust DB behind FetchingProvider (recording remote) / " +
+		"trust.Verifier (uncached, cold cache) / compat.Verifier / VerifySegment: segments of 1-3 entries parsed from the wire whose " +
+		"probe entry is signed with a fresh key whose certificate(s) start d after / d before the timestamp or end d before / d after " +
+		"the hop expiry, d in {0, 0.5 s, seconds, minutes, every hour 1..14, +-1 s around every zone offset}, plus two certificates of " +
+		"which neither / one covers; class = localdb / zone / scenario / by=exact|seconds|minutes|hours / verifier / outcome"
 	r.Assumptions = []string{
 		"oracle: verifies <=> untouched or truncated tail (or a re-signed positive control); everything else must be rejected by parser or VerifySegment",
 		"all certificates and TRCs are valid at the wall-clock time of the run with margins of >= 2 h (run time is capped below that by the watchdog), so no verdict depends on time.Now()",
@@ -857,6 +869,10 @@ func checkC24(r *mon.Run) {
 			"a genuine segment is only required to verify under the no-fault schedule, under delay/cancellation/expiry its outcome is recorded; " +
 			"a result missing after the 60 s watchdog, a surplus or an unattributable result is inconclusive",
 		"the fault-injecting wrapper returns success only if the real verifier returned success for that very call",
+		"local-trust-DB phase: oracle = verifies <=> some certificate of the signing key has NotBefore <= timestamp and NotAfter >= timestamp + (1+ExpTime)*337.5 s " +
+			"(instants compared, computed from the issued certificate fields; the same inclusive lifetime as the validity cases of the main phase); the zone never enters the oracle; " +
+			"late-starting certificates started >= 5 min before setup, early-ending ones end >= 2 h 10 min after it; whether the remote was asked is recorded, not judged",
+		"time.Local is written only by the check's main goroutine between phases, after every worker goroutine has been joined, and restored at the end",
 	}
 	if err := beaconref.SelfTest(); err != nil {
 		fmt.Fprintln(os.Stderr, "reference self-test failed:", err)
@@ -868,29 +884,84 @@ func checkC24(r *mon.Run) {
 		os.Exit(2)
 	}
 	defer w.close()
-	c := &c24Ctx{r: r, w: w}
+	// time.Local is a configuration dimension (c24local.go). It is written
+	// only here and in c24EnterZone, on this goroutine, while no worker runs.
+	origLocal := time.Local
+	defer func() { time.Local = origLocal }()
+	lsamples := new(atomic.Int64)
+
+	// local-trust-DB phase: once per zone
+	lfix, err := c24NewLFix(w.now0)
+	if err != nil {
+		fmt.Fprintln(os.Stderr, "fixtures (local trust DB phase):", err)
+		os.Exit(2)
+	}
+	tLocal := time.Now()
+	for _, z := range c24Zones() {
+		if !c24EnterZone(r, z) {
+			continue
+		}
+		(&c24Ctx{r: r, w: w, zone: z.name, lsamples: lsamples}).localDBPhase(lfix, z)
+	}
+	r.Extra("localdb_phase_wall_s", time.Since(tLocal).Seconds())
+
+	// main phase: the bases are split over the zones in contiguous ranges (every
+	// range visits every segment length); one round per zone, workers joined in between
 	bases := r.Pick(100, 120)
 	const workers = 12
-	var wg sync.WaitGroup
-	for wk := 0; wk < workers; wk++ {
-		wg.Add(1)
-		go func() {
-			defer wg.Done()
-			rng := r.Rand(fmt.Sprint("c24-w", wk))
-			for b := wk; b < bases; b += workers {
-				c.family(rng, b)
+	mz := c24MainZones(r)
+	roundWall := map[string]float64{}
+	for k, z := range mz {
+		tRound := time.Now()
+		lo, hi := k*bases/len(mz), (k+1)*bases/len(mz)
+		// longest families first, handed out dynamically; the cases of a base
+		// depend on the base's own PRNG stream only
+		var order []int
+		for n := 10; n >= 1; n-- {
+			for b := lo; b < hi; b++ {
+				if 1+b%10 == n {
+					order = append(order, b)
+				}
 			}
-		}()
+		}
+		if !c24EnterZone(r, z) {
+			continue
+		}
+		c := &c24Ctx{r: r, w: w, zone: z.name, lsamples: lsamples}
+		var next atomic.Int64
+		var wg sync.WaitGroup
+		for wk := 0; wk < workers; wk++ {
+			wg.Add(1)
+			go func() {
+				defer wg.Done()
+				for {
+					i := int(next.Add(1)) - 1
+					if i >= len(order) {
+						return
+					}
+					b := order[i]
+					c.family(r.Rand(fmt.Sprint("c24-b", b)), b)
+				}
+			}()
+		}
+		wg.Wait()
+		r.Class("main-phase/local-zone-side=" + z.side)
+		r.Event("main_phase_round/zone=" + z.name)
+		roundWall[z.name] = time.Since(tRound).Seconds()
 	}
-	wg.Wait()
+	r.Extra("main_phase_round_wall_s", roundWall)
+	time.Local = origLocal
 	r.Extra("remote_fetch_attempts", w.fetches.Load())
-	r.Require(int64(bases*80), 120, "accept", "reject_verify", "reject_parse", "reject_verify_lenient",
+	lcls, levs := c24LocalRequire()
+	r.Require(int64(bases*80)+int64(len(lcls)), 120+len(lcls), append([]string{"accept", "reject_verify", "reject_parse", "reject_verify_lenient",
 		"malleated_signature_valid_on_its_own",
 		"sched_altered_rejected", "sched_altered_in_flight_when_context_done_rejected", "sched_genuine_verified",
-		"sched_cancelled_from_inside_a_verification_call", "sched_segverifier_results")
+		"sched_cancelled_from_inside_a_verification_call", "sched_segverifier_results"}, levs...)...)
 	r.Extra("sched_segverifier_units_started", r.Events("sched_segverifier_units_started"))
 	r.Extra("sched_segverifier_results", r.Events("sched_segverifier_results"))
 	r.RequireClasses(c24SchedRequire()...)
+	r.RequireClasses(lcls...)
+	r.RequireClasses("main-phase/local-zone-side=utc", "main-phase/local-zone-side=east", "main-phase/local-zone-side=west")
 	r.RequireClasses(
 		"untouched/uncached/verifies", "untouched/cached/verifies",
 		"truncate-tail/uncached/verifies", "truncate-tail/cached/verifies",
